@@ -543,6 +543,26 @@ add("partition_count_asserted", (CAN, "    m_partitioned = m.copy()\n", "    ass
 add("canonical_graph_asserted_new", (CAN, "    return nx.relabel_nodes(m_refined, canonical_labels, copy=True)",
     "    m_canonical = nx.relabel_nodes(m_refined, canonical_labels, copy=True)\n    assert m_canonical is not m_refined and m_canonical is not m\n    return m_canonical"), silent=True)
 
+_RETRY_OLD = """    enforce_permutation = m.number_of_edges() > 1 and nx.density(m) != 1
+    if enforce_permutation:
+        while m.edges == m_permu.edges:
+            m_permu = _permute_molecule(m)
+
+    return m_permu
+"""
+_RETRY_GUARD = """    if m.number_of_edges() <= 1 or nx.density(m) == 1:
+        return m_permu
+
+    while True:
+        if %s:
+            return m_permu
+        m_permu = _permute_molecule(m)
+"""
+add("permutation_retry_as_endless_loop_with_return", (GU, _RETRY_OLD, _RETRY_GUARD % "not (m.edges == m_permu.edges)"), silent=True,
+    note="guard clause for the graphs without enforcement, then `while True` left by a return under the negated bond-set test")
+add("permutation_retry_as_endless_loop_returns_unchanged", (GU, _RETRY_OLD, _RETRY_GUARD % "m.edges == m_permu.edges"), fires={"R-RETRY"},
+    note="the same with the test the wrong way round: the first candidate that leaves the bonds unchanged is returned")
+
 add("v3000_endpts_search_untested", (V3, """    if endpts_match is None:
         # silently ignore everything that has no ENDPTS (e.g. use of star atoms in polymers)
         return []
